@@ -193,6 +193,10 @@ func init() {
 		alphabet := automata.Alphabet()
 		cnt := &c05Counters{}
 		if c.Replay != nil {
+			if ph, ok := c.Replay["parse_history"].(string); ok {
+				c05ParseHistory(c, ph)
+				return
+			}
 			text, _ := c.Replay["rule"].(string)
 			c05CheckRule(c, text, "replay", cnt, alphabet, 400000)
 			return
@@ -388,7 +392,10 @@ func init() {
 		c.Run.Set("states", cnt.states.Load())
 		c.Run.Set("transitions", cnt.transitions.Load())
 		c.Run.Set("traces_validated_against_impl", cnt.witnesses.Load())
-		c.Run.Set("evaluations", cnt.withShortcut.Load())
+		phEvals, phCases := c05ParseHistory(c, "")
+		c.Run.Set("parse_history_cases", phCases)
+		c.Run.Set("parse_history_evaluations", phEvals)
+		c.Run.Set("evaluations", cnt.withShortcut.Load()+phEvals)
 		c.Run.Set("distinct_nontrivial", cnt.nontrivial.Load())
 		c.Run.Set("rule", fmt.Sprintf("mask patterns of <=%d tokens (both case modes), every valid regular expression of <=%d tokens over %d regex tokens, and every regex rule of the bundled lists; non-trivial = rule has a shortcut and a non-empty language; per rule every reachable state of (compiled DFA x KMP(shortcut)) over 94 graphic ASCII characters", nMask, nRegex, len(c05RegexTokens)))
 		c.Run.Set("exhaustive", exhaustive && cnt.capHit.Load() == 0)
